@@ -126,7 +126,12 @@ def type_key_rows():
     for (_c, _p), variants in sorted(lf.type_variant_groups(sa).items()):
         for _lbl, T in variants:
             d = repr(lf.type_desc(T))
-            seen.setdefault(d, repr(T._static_cache_key))
+            k = T._static_cache_key
+            if isinstance(k, tuple) and len(k) > 1:
+                # the (name, value) pairs follow util.get_cls_kwargs(), a set: their order
+                # depends on the process's hash seed and is not part of the key's meaning
+                k = (k[0],) + tuple(sorted(k[1:], key=repr))
+            seen.setdefault(d, repr(k))
     return sorted(seen.items())
 
 
